@@ -23,6 +23,8 @@ HELPER_EXEMPT = {
     ("B64C", "validate_b64c_text"): "same (validate_b64_control, classic alphabet)",
     ("B64USLOPPY", "validate_b64u_text"): "same; the CBOR helper has an extra strip-last-character fallback, no diverging verdict found with probes",
     ("B64CSLOPPY", "validate_b64c_text"): "same",
+    ("HEXLC", "validate_hex_text"): "JSON uses its own validate_hex_control(bytes, HexCase::Lower): same decode + case test as the shared helper (reviewed after the fix commit that added the case test)",
+    ("HEXUC", "validate_hex_text"): "same with HexCase::Upper",
     ("HEX", "validate_hex_text"): "JSON uses its own validate_hex_control (hex::decode, any case) = HexCase::Any of the shared helper",
 }
 
